@@ -75,6 +75,35 @@ func Run(p gsim.Plan) (v hk.Verdict) {
 			if out.Owner != gsim.CtrlName || out.Phase != 0 || out.Val != gsim.F(in.Val) {
 				v.Failf("%s (b) input %s is live but its output is %s (want running, owner %s, value %q); log: %s", ctx, in, out, gsim.CtrlName, gsim.F(in.Val), tail(r.Log))
 			}
+		case gsim.Gated(p, id) && in != nil && in.Phase == 1 && slices.Contains(in.Fins, gsim.CtrlName):
+			// the finalizer removal function refuses for this input: the controller's finalizer stays, and so does the
+			// output (c: a torn-down input whose output is gone no longer carries the finalizer). Outputs are only
+			// ever removed by the controller, so an output it removed while the input was already waiting like this
+			// leaves an input that can never be destroyed.
+			if out != nil {
+				v.Label("output-kept-while-finalizer-removal-refused")
+
+				v.NonTrivial = true
+
+				continue
+			}
+
+			cur := map[model.Key]*model.Res{}
+
+			for _, e := range r.Log {
+				if i := cur[gsim.InKey(id)]; e.Commit.Kind == model.Destroyed && e.Commit.New.Key == gsim.OutKey(id) && e.Via == "rt" &&
+					i != nil && i.Phase == 1 && slices.Contains(i.Fins, gsim.CtrlName) {
+					v.Failf("%s (c) torn-down input %s still carries the controller's finalizer (its removal function refuses) but the controller destroyed its output meanwhile: the input can never be destroyed; log: %s", ctx, in, tail(r.Log))
+
+					break
+				}
+
+				if e.Commit.Kind == model.Destroyed {
+					delete(cur, e.Commit.New.Key)
+				} else {
+					cur[e.Commit.New.Key] = e.Commit.New
+				}
+			}
 		default:
 			// (a) no orphan output unless held by a foreign finalizer the script still holds
 			if out != nil && out.Owner == gsim.CtrlName && !heldOut(id) {
